@@ -760,4 +760,278 @@ theorem updateWith_ok (d : Defects) (pri : List Key) (system : Bool) (m nv : Mod
   rfl
 
 
+/-! ### an accepted update (text-order numbering) keeps the model well formed -/
+
+theorem renumber_of_PosFrom (s : Nat) (l : List Field) (h : PosFrom (fun (f : Field) => f.short) s l) :
+    renumber s l = l := by
+  induction l generalizing s with
+  | nil => rfl
+  | cons f fs ih =>
+    simp only [renumber]
+    rw [ih _ h.2]
+    have := h.1
+    cases f; simp_all
+
+theorem PosFrom_drop {α : Type} (pos : α → Nat) (s n : Nat) (l : List α) (h : PosFrom pos s l) (hn : n ≤ l.length) :
+    PosFrom pos (s + n) (l.drop n) := by
+  have := (PosFrom_append pos s (l.take n) (l.drop n)).mp (by rw [List.take_append_drop]; exact h)
+  simpa [List.length_take, Nat.min_eq_left hn] using this.2
+
+/-- lookup by name in two positional lists with the same names gives the same position -/
+theorem find_pos_eq {α β : Type} (nameA : α → String) (posA : α → Nat) (nameB : β → String) (posB : β → Nat)
+    (s : Nat) (l1 : List α) (l2 : List β) (hn : l1.map nameA = l2.map nameB)
+    (h1 : PosFrom posA s l1) (h2 : PosFrom posB s l2) (a : String) :
+    (l1.find? (fun x => nameA x == a)).map posA = (l2.find? (fun y => nameB y == a)).map posB := by
+  induction l1 generalizing s l2 with
+  | nil => cases l2 with
+    | nil => rfl
+    | cons y ys => simp at hn
+  | cons x xs ih =>
+    cases l2 with
+    | nil => simp at hn
+    | cons y ys =>
+      simp only [List.map_cons, List.cons.injEq] at hn
+      simp only [List.find?_cons, hn.1]
+      cases hy : nameB y == a with
+      | true => simp [h1.1, h2.1]
+      | false => exact ih (s + 1) ys hn.2 h1.2 h2.2
+
+theorem checkField_none {f : Field} {nfs : List Field} (h : checkField f nfs = none) :
+    ∃ nf, nfs.find? (·.name == f.name) = some nf ∧ nf.short = f.short ∧ nf.ty = f.ty ∧
+      ¬ (f.nullable = true ∧ nf.nullable = false ∧ nf.dflt = none ∧ f.ty.isRef = false) := by
+  unfold checkField at h
+  split at h
+  · cases h
+  · rename_i nf hf
+    refine ⟨nf, hf, ?_⟩
+    split at h
+    · cases h
+    · rename_i h1
+      split at h
+      · cases h
+      · rename_i h2
+        split at h
+        · cases h
+        · rename_i h3
+          simp only [bne_iff_ne, ne_eq, Decidable.not_not] at h1 h2
+          refine ⟨h1, h2, ?_⟩
+          intro ⟨a, b, c, d⟩
+          apply h3
+          simp [a, b, c, d]
+
+/-- the fields of an accepted entity update, for text-order numbering -/
+theorem merged_fields (pri : List Key) (nsn : String) (d : Defects) (hd : d.hashOrderIds = false) (e ne : Entity)
+    (he : e.WF) (hne : ne.WF) (ha : e.accepts ne) :
+    (e.merged d pri nsn ne).fields = e.fields.map (fun f => mergeField f ne.fields) ++ ne.fields.drop e.fields.length ∧
+    (e.merged d pri nsn ne).fields.map (·.name) = ne.fields.map (·.name) ∧
+    PosFrom (fun (f : Field) => f.short) reservedShort (e.merged d pri nsn ne).fields ∧
+    e.fresh ne = ne.fields.drop e.fields.length ∧ e.fields.length ≤ ne.fields.length := by
+  have hm : ∀ x ∈ e.fields, ∃ y ∈ ne.fields, y.name = x.name ∧ y.short = x.short := by
+    intro x hx
+    obtain ⟨nf, hf, hs, _⟩ := checkField_none (ha.1 x hx)
+    have := List.find?_some hf
+    exact ⟨nf, List.mem_of_find?_eq_some hf, by simpa using this, hs⟩
+  obtain ⟨hlen, htake, hfilter⟩ := prefix_of_match (fun (f : Field) => f.name) (fun f => f.short) (fun (f : Field) => f.name)
+    (fun f => f.short) reservedShort e.fields ne.fields he.2 hne.2 hne.1 hm
+  have hfresh : e.fresh ne = ne.fields.drop e.fields.length := by
+    unfold Entity.fresh
+    rw [← hfilter]
+  have hdrop := PosFrom_drop (fun (f : Field) => f.short) reservedShort e.fields.length ne.fields hne.2 hlen
+  have hfields : (e.merged d pri nsn ne).fields =
+      e.fields.map (fun f => mergeField f ne.fields) ++ ne.fields.drop e.fields.length := by
+    simp only [Entity.merged, hd, Bool.false_eq_true, if_false, hfresh]
+    rw [renumber_of_PosFrom _ _ hdrop]
+  refine ⟨hfields, ?_, ?_, hfresh, hlen⟩
+  · rw [hfields, List.map_append, List.map_map]
+    have : (e.fields.map ((fun (f : Field) => f.name) ∘ fun f => mergeField f ne.fields)) = e.fields.map (·.name) := by
+      apply List.map_congr_left; intro x _; simp [mergeField_name]
+    rw [this, ← htake, ← List.map_append, List.take_append_drop]
+  · rw [hfields, PosFrom_append]
+    refine ⟨(PosFrom_map _ _ (fun x => mergeField_short x ne.fields) _ _).mpr he.2, ?_⟩
+    simpa using hdrop
+
+theorem merged_wf (pri : List Key) (nsn : String) (d : Defects) (hd : d.hashOrderIds = false) (e ne : Entity)
+    (he : e.WF) (hne : ne.WF) (ha : e.accepts ne) : (e.merged d pri nsn ne).WF := by
+  obtain ⟨_, h2, h3, _⟩ := merged_fields pri nsn d hd e ne he hne ha
+  exact ⟨by rw [h2]; exact hne.1, h3⟩
+
+theorem nsMerged_ents (pri : List Key) (d : Defects) (hd : d.hashOrderIds = false) (old nn : Ns)
+    (ho : old.WF) (hn : nn.WF) (ha : ∀ e ∈ old.ents, entAccepted nn e) :
+    (Ns.merged d pri old nn).ents = old.ents.map (fun e => (entStep d pri nn e).1) ++ nn.ents.drop old.ents.length ∧
+    (Ns.merged d pri old nn).ents.map (·.name) = nn.ents.map (·.name) ∧
+    PosFrom (fun (e : Entity) => e.k) 0 (Ns.merged d pri old nn).ents ∧
+    (∀ e ∈ (Ns.merged d pri old nn).ents, e.WF) ∧ old.ents.length ≤ nn.ents.length := by
+  have hm : ∀ x ∈ old.ents, ∃ y ∈ nn.ents, y.name = x.name ∧ y.k = x.k := by
+    intro x hx
+    obtain ⟨ne, hf, hk, _⟩ := ha x hx
+    have := List.find?_some hf
+    exact ⟨ne, List.mem_of_find?_eq_some hf, by simpa using this, hk⟩
+  obtain ⟨hlen, htake, hfilter⟩ := prefix_of_match (fun (e : Entity) => e.name) (fun e => e.k) (fun (e : Entity) => e.name)
+    (fun e => e.k) 0 old.ents nn.ents ho.2.1 hn.2.1 hn.1 hm
+  have hdrop := PosFrom_drop (fun (e : Entity) => e.k) 0 old.ents.length nn.ents hn.2.1 hlen
+  have hents : (Ns.merged d pri old nn).ents =
+      old.ents.map (fun e => (entStep d pri nn e).1) ++ nn.ents.drop old.ents.length := by
+    simp only [Ns.merged]
+    rw [← hfilter]
+  refine ⟨hents, ?_, ?_, ?_, hlen⟩
+  · rw [hents, List.map_append, List.map_map]
+    have : (old.ents.map ((fun (e : Entity) => e.name) ∘ fun e => (entStep d pri nn e).1)) = old.ents.map (·.name) := by
+      apply List.map_congr_left; intro x _; simp [(entStep_ext d pri nn x).1]
+    rw [this, ← htake, ← List.map_append, List.take_append_drop]
+  · rw [hents, PosFrom_append]
+    refine ⟨(PosFrom_map _ _ (fun x => (entStep_ext d pri nn x).2.1) _ _).mpr ho.2.1, ?_⟩
+    simpa using hdrop
+  · intro e he
+    rw [hents] at he
+    rcases List.mem_append.mp he with he | he
+    · simp only [List.mem_map] at he
+      obtain ⟨x, hx, rfl⟩ := he
+      obtain ⟨ne, hf, hk, hacc⟩ := ha x hx
+      rw [entStep_ok d pri nn x ne hf hk hacc]
+      exact merged_wf pri nn.name d hd x ne (ho.2.2 x hx) (hn.2.2 ne (List.mem_of_find?_eq_some hf)) hacc
+    · exact hn.2.2 e (List.mem_of_mem_drop he)
+
+theorem nsMerged_wf (pri : List Key) (d : Defects) (hd : d.hashOrderIds = false) (old nn : Ns)
+    (ho : old.WF) (hn : nn.WF) (ha : ∀ e ∈ old.ents, entAccepted nn e) : (Ns.merged d pri old nn).WF := by
+  obtain ⟨_, h2, h3, h4, _⟩ := nsMerged_ents pri d hd old nn ho hn ha
+  exact ⟨by rw [h2]; exact hn.1, h3, h4⟩
+
+theorem PosFrom_eq_of_pos_eq {α : Type} (pos : α → Nat) (s : Nat) (l : List α) (h : PosFrom pos s l)
+    (x y : α) (hx : x ∈ l) (hy : y ∈ l) (hp : pos x = pos y) : x = y := by
+  induction l generalizing s with
+  | nil => simp at hx
+  | cons z zs ih =>
+    rcases List.mem_cons.mp hx with hx' | hx' <;> rcases List.mem_cons.mp hy with hy' | hy'
+    · rw [hx', hy']
+    · have := PosFrom_ge pos _ zs h.2 y hy'; have := h.1; subst hx'; omega
+    · have := PosFrom_ge pos _ zs h.2 x hx'; have := h.1; subst hy'; omega
+    · exact ih _ h.2 hx' hy'
+
+theorem nsStep_fst_of_accepted (pri : List Key) (d : Defects) (system : Bool) (nv : Model) (n : Ns)
+    (ha : nsAccepted system nv n) :
+    (nv.nss.find? (·.name == n.name) = none ∧ (nsStep d pri system nv n).1 = n) ∨
+    (∃ nn, nv.nss.find? (·.name == n.name) = some nn ∧ nn.id = n.id ∧ (∀ e ∈ n.ents, entAccepted nn e) ∧
+      (nsStep d pri system nv n).1 = Ns.merged d pri n nn) := by
+  unfold nsAccepted at ha
+  cases hf : nv.nss.find? (·.name == n.name) with
+  | none =>
+    rw [hf] at ha
+    exact Or.inl ⟨rfl, by rw [nsStep_ok_none d pri system nv n hf ha]⟩
+  | some nn =>
+    rw [hf] at ha
+    exact Or.inr ⟨nn, rfl, ha.1, ha.2, by rw [nsStep_ok_some d pri system nv n nn hf ha.1 ha.2]⟩
+
+/-- the two ways `update_with` is called: `update_system` (namespace ids from 0) and `update` (from 1) -/
+def Mode (system : Bool) (decal : Nat) : Prop := (system = true ∧ decal = 0) ∨ (system = false ∧ decal = 1)
+
+theorem merged_model_wf (pri : List Key) (d : Defects) (hd : d.hashOrderIds = false) (system : Bool) (decal : Nat)
+    (hmode : Mode system decal) (m nv : Model) (hm : m.WF) (hnv : NssWFp decal nv.nss)
+    (ha : updAccepted system m nv) : (Model.merged d pri system m nv).WF := by
+  have hname : ∀ n, (nsStep d pri system nv n).1.name = n.name := fun n => (nsStep_ext d pri system nv n).1
+  have hid : ∀ n, (nsStep d pri system nv n).1.id = n.id := fun n => (nsStep_ext d pri system nv n).2.1
+  have hmapn : (m.nss.map fun n => (nsStep d pri system nv n).1).map (·.name) = m.nss.map (·.name) := by
+    rw [List.map_map]; apply List.map_congr_left; intro x _; simp [hname]
+  have hmapi : (m.nss.map fun n => (nsStep d pri system nv n).1).map (·.id) = m.nss.map (·.id) := by
+    rw [List.map_map]; apply List.map_congr_left; intro x _; simp [hid]
+  have hfresh_mem : ∀ x ∈ nv.nss.filter (fun nn => !m.nss.any (·.name == nn.name)), x ∈ nv.nss ∧ x.name ∉ m.nss.map (·.name) := by
+    intro x hx
+    simp only [List.mem_filter, Bool.not_eq_true', List.any_eq_false, beq_iff_eq] at hx
+    refine ⟨hx.1, ?_⟩
+    simp only [List.mem_map, not_exists, not_and]
+    exact hx.2
+  -- facts about a fresh namespace
+  have hguard := ha.1
+  unfold nsGuard at hguard
+  have hfresh_sys : ∀ x ∈ nv.nss, (x.name = sysNs ↔ x.id = 0) := by
+    intro x hx
+    have hg := (List.any_eq_false.mp hguard) x hx
+    rcases hmode with ⟨hs, hdec⟩ | ⟨hs, hdec⟩
+    · subst hs; subst hdec
+      simp only [if_true, bne_iff_ne, ne_eq, Decidable.not_not] at hg
+      refine ⟨fun _ => ?_, fun _ => hg⟩
+      -- all namespaces of nv are named sys and names are distinct: x is the first one
+      cases hl : nv.nss with
+      | nil => rw [hl] at hx; simp at hx
+      | cons y ys =>
+        rw [hl] at hx
+        have hp := hnv.2.1; rw [hl] at hp
+        have hnd := hnv.1; rw [hl] at hnd
+        rcases List.mem_cons.mp hx with rfl | hx'
+        · exact hp.1
+        · exfalso
+          simp only [List.map_cons, List.nodup_cons, List.mem_map, not_exists, not_and] at hnd
+          have hy : y.name = sysNs := by
+            have := (List.any_eq_false.mp hguard) y (by rw [hl]; simp)
+            simpa using this
+          exact hnd.1 x hx' (hg.trans hy.symm)
+    · subst hs; subst hdec
+      simp only [Bool.false_eq_true, if_false, beq_iff_eq] at hg
+      have := PosFrom_ge _ _ _ hnv.2.1 x hx
+      constructor
+      · intro h; exact absurd h hg
+      · intro h; omega
+  refine ⟨?_, ?_, ?_, ?_⟩
+  · -- names
+    simp only [Model.merged, List.map_append]
+    rw [hmapn, List.nodup_append]
+    refine ⟨hm.1, (hnv.1.sublist ((List.filter_sublist).map _)), ?_⟩
+    intro a ha' b hb
+    simp only [List.mem_map] at hb
+    obtain ⟨x, hx, rfl⟩ := hb
+    intro heq; subst heq
+    exact (hfresh_mem x hx).2 ha'
+  · -- ids
+    simp only [Model.merged, List.map_append]
+    rw [hmapi, List.nodup_append]
+    refine ⟨hm.2.1, ((PosFrom_nodup _ _ _ hnv.2.1).sublist ((List.filter_sublist).map _)), ?_⟩
+    intro a ha' b hb
+    simp only [List.mem_map] at ha' hb
+    obtain ⟨y, hy, rfl⟩ := ha'
+    obtain ⟨x, hx, rfl⟩ := hb
+    obtain ⟨hxnv, hxm⟩ := hfresh_mem x hx
+    intro heq
+    by_cases hys : y.name = sysNs
+    · -- y is the system namespace (id 0): then x has id 0, so x is named sys, so x.name ∈ m
+      have hy0 := (hm.2.2.1 y hy).mp hys
+      have hx0 : x.id = 0 := by rw [← heq]; exact hy0
+      have := (hfresh_sys x hxnv).mpr hx0
+      exact hxm (by simp only [List.mem_map]; exact ⟨y, hy, hys.trans this.symm⟩)
+    · rcases nsStep_fst_of_accepted pri d system nv y (ha.2 y hy) with ⟨hnone, _⟩ | ⟨nn, hsome, hnid, _, _⟩
+      · -- y is not in nv: only possible for a system update; then x is sys with id 0 and y.id ≠ 0
+        have hacc := ha.2 y hy
+        unfold nsAccepted at hacc
+        rw [hnone] at hacc
+        rcases hacc with hs | hs
+        · subst hs
+          have hg := (List.any_eq_false.mp hguard) x hxnv
+          simp only [if_true, bne_iff_ne, ne_eq, Decidable.not_not] at hg
+          have hx0 := (hfresh_sys x hxnv).mp hg
+          have hy0 : y.id ≠ 0 := fun h => hys ((hm.2.2.1 y hy).mpr h)
+          exact hy0 (by rw [heq]; exact hx0)
+        · exact hys hs
+      · have hnn := List.mem_of_find?_eq_some hsome
+        have hnname : nn.name = y.name := by simpa using List.find?_some hsome
+        have : x = nn := PosFrom_eq_of_pos_eq _ _ _ hnv.2.1 x nn hxnv hnn (by rw [hnid]; exact heq.symm)
+        subst this
+        exact hxm (by simp only [List.mem_map]; exact ⟨y, hy, hnname.symm⟩)
+  · -- the system namespace is the one with id 0
+    intro n hn
+    simp only [Model.merged] at hn
+    rcases List.mem_append.mp hn with hn | hn
+    · simp only [List.mem_map] at hn
+      obtain ⟨y, hy, rfl⟩ := hn
+      rw [hname, hid]; exact hm.2.2.1 y hy
+    · exact hfresh_sys n (hfresh_mem n hn).1
+  · intro n hn
+    simp only [Model.merged] at hn
+    rcases List.mem_append.mp hn with hn | hn
+    · simp only [List.mem_map] at hn
+      obtain ⟨y, hy, rfl⟩ := hn
+      rcases nsStep_fst_of_accepted pri d system nv y (ha.2 y hy) with ⟨_, heq⟩ | ⟨nn, hsome, _, hents, heq⟩
+      · rw [heq]; exact hm.2.2.2 y hy
+      · rw [heq]
+        exact nsMerged_wf pri d hd y nn (hm.2.2.2 y hy) (hnv.2.2 nn (List.mem_of_find?_eq_some hsome)) hents
+    · exact hnv.2.2 n (hfresh_mem n hn).1
+
+
 end Discret.DM
